@@ -173,6 +173,18 @@ def check(prog, R, rule, floor=18):
     R.floor("positional accessors with a role table", n, floor)
 
 
+def as_reviewed(prog, acc):
+    """The accessor (short name as in spec/positional_accessors.json) still selects by position exactly as reviewed."""
+    import json, os
+    V = os.path.dirname(os.path.dirname(os.path.abspath(__file__)))
+    spec = {e["accessor"]: e for e in json.load(open(os.path.join(V, "spec", "positional_accessors.json")))}
+    e = spec.get(acc)
+    if e is None or AST + acc not in set(positional_accessors(prog)):
+        return False
+    rows, unk = table(prog, AST + acc)
+    return not unk and sorted(rows) == sorted((tuple(r["when"]), r["returns"]) for r in e["rows"])
+
+
 def helper_check(prog, R, rule):
     """IfStmt::nodes_around_else(after_else): the child *nodes* of the statement, split at the `else` keyword token."""
     b = prog.body(AST + "node_ext::IfStmt::nodes_around_else")
